@@ -8,8 +8,8 @@ open Streams
   seq <proto> <op> <op> …
       sequential big-step semantics (`Streams.seqOp`), one answer token per op:
         g        GetStream            → `<id>:t` | `0:f`
-        c<id>    Clear(id)            → `T` | `F` | `crash:index` | `crash:negative`
-        n<k>     Clear(-k), k ≥ 1 (negative argument, `Streams.clearNeg`; seq lines only, `smon` answers n/a)
+        c<id>    Clear(id)            → `T` | `F` | `crash:negative`   (`F` also for id ≥ NumStreams)
+        n<k>     Clear(-k), k ≥ 1 (negative argument, `Streams.clearNeg`: answers false, nothing changes)
         (thread scripts only) r = Clear(id acquired most recently by this thread and not yet
                  released through r), Available if there is none
         a        Available            → `a=<n>`
@@ -38,7 +38,7 @@ open Streams
         CAS, Clear load that saw the bit clear) are a history of the sequential id-set specification and every
         call returns the answer of its linearization point (C08_linearizable_partial, C08_lp_answers; not after Clear(0))
         'negative streams inuse' panic only after an excluded event (Clear(0) called, or a Clear CAS that
-        cleared the bit of an id whose GetStream had not returned yet); index panic only for id >= NumStreams
+        cleared the bit of an id whose GetStream had not returned yet); no index panic for any argument
       scenarios whose scripts respect the client protocol (every Clear names an id in use after P, no id is
       named twice; static criterion) additionally: ids unique among held ids, no panic at all,
       Available = NumStreams-1-#held at the end
@@ -154,6 +154,26 @@ def nextYield (script : List SOp) (mine : List Nat) : String :=
   | [] => "d"
   | op :: _ => "y" ++ toString (startPC (resolve mine op).1).yieldPoint
 
+/-- `Clear(id)` with `id ≥ NumStreams` returns false WITHOUT any atomic operation (the guard added by the fix of
+    KF-C08-3 is thread-local): in the lock-step observations such a call is part of the scheduling decision in which
+    the preceding call returned (or of the start of the thread). The machine performs it as a step that leaves the
+    shared state alone (`C08_clear_out_of_range`). Returns the answers of the calls consumed. -/
+def skipLocal : Nat → Conc → Nat → List String → Conc × List String
+  | 0, c, _, acc => (c, acc.reverse)
+  | f + 1, c, t, acc =>
+    if (c.st.threads.getD t .idle) ≠ .idle then (c, acc.reverse) else
+    match c.scripts.getD t [] with
+    | .op (.clear id) :: rest =>
+      if 64 * c.st.sh.words.length ≤ id then
+        match Streams.step c.st (.start t (.clear id)) with
+        | some (st', r) =>
+          let a : Action := .start t (.clear id)
+          skipLocal f { c with st := st', scripts := c.scripts.set t rest, evs := evOf c.st a ++ c.evs,
+                               lin := (linOf c.st a).reverse ++ c.lin } t (showRet r :: acc)
+        | none => (c, acc.reverse)
+      else (c, acc.reverse)
+    | _ => (c, acc.reverse)
+
 /-- scheduling decision: thread t performs one atomic operation -/
 def concStep (c : Conc) (t : Nat) : Conc × String :=
   match c.st.threads[t]? with
@@ -190,7 +210,10 @@ def concStep (c : Conc) (t : Nat) : Conc × String :=
                            evs := evOf c.st a ++ c.evs, c0 := c0', excl := excl', viol := c.viol || bad,
                            lin := (linOf c.st a).reverse ++ c.lin }
         match r with
-        | some _ => (c', toString t ++ ":" ++ showRet r ++ ":" ++ nextYield script' mine'')
+        | some _ =>
+          let (c'', more) := skipLocal (script'.length + 1) c' t []
+          (c'', toString t ++ ":" ++ ":".intercalate (showRet r :: more) ++ ":" ++
+                 nextYield (c''.scripts.getD t []) (c''.mine.getD t []))
         | none => (c', toString t ++ ":y" ++ toString ((st'.threads.getD t .idle).yieldPoint))
 
 def threadDone (c : Conc) (t : Nat) : Bool :=
@@ -272,8 +295,14 @@ def runConc (cache : Cache) (proto k : Nat) (rest : List String) : Cache × Opti
       let st0 : State := { sh := sh, threads := List.replicate k .idle, held := inuse0 }
       let c0 : Conc := { st := st0, scripts := scripts, mine := List.replicate k [],
                          c0 := pre.contains "c0", excl := pre.contains "c0" }
+      -- start of the threads: calls that return without any atomic operation are observed as `<t>:start:…`
+      let (c0, acc0) := (List.range k).foldl (fun (p : Conc × List String) t =>
+          let (c', more) := skipLocal ((p.1.scripts.getD t []).length + 1) p.1 t []
+          if more.isEmpty then p
+          else (c', (toString t ++ ":start:" ++ ":".intercalate more ++ ":" ++
+                      nextYield (c'.scripts.getD t []) (c'.mine.getD t [])) :: p.2)) (c0, [])
       let (c1, acc) := sched.foldl (fun (p : Conc × List String) t =>
-          let (c', o) := concStep p.1 t; (c', o :: p.2)) (c0, [])
+          let (c', o) := concStep p.1 t; (c', o :: p.2)) (c0, acc0)
       let (c2, acc) := finishAll c1 k acc
       (cache', some (acc.reverse, c2.st, protocol, c2, sh.words))
     | (cache', _), _ => (cache', none)
@@ -318,6 +347,10 @@ def parseSeqOps : List String → Option (List HOp)
   | [] => some []
   | w :: ws =>
     match (if w.startsWith "G" then (w.drop 1).toNat?.map (fun c => List.replicate c (HOp.op Op.get))
+           else if w.startsWith "n" then
+             (match (w.drop 1).toNat? with
+              | some k => if k = 0 then none else some [HOp.clearNeg k]
+              | none => none)
            else if w.startsWith "O" then (parsePreset w).map (fun v => [HOp.setOffset v])
            else (parseOp w).map (fun o => [HOp.op o])),
           parseSeqOps ws with
@@ -352,8 +385,6 @@ def step (cache : Cache) (ws : List String) : Cache × String :=
       | (cache', none) => (cache', "bad-op")
     | _, _ => (cache, "bad-op")
   | "smon" :: p :: ops =>
-    if ops.any (fun w => w.startsWith "n") then (cache, "n/a")   -- Clear of a negative id: excluded (KF-C08-3)
-    else
     match p.toNat?, parseSeqOps ops with
     | some proto, some l =>
       if l.contains (.op (.clear 0)) then (cache, "n/a")
